@@ -200,6 +200,8 @@ def sweep(fx, R):
             for i in g.get('inits', []):
                 if i.get('field') and i.get('e') is not None:
                     e0 = strip_casts(i['e'])
+                    while e0.get('k') == 'Construct' and len(e0.get('args', [])) == 1:        # copy construction from the parameter
+                        e0 = strip_casts(e0['args'][0])
                     if e0.get('k') == 'Ref' and e0.get('rk') == 'param':
                         by_param[i['field']] = e0.get('id')
             for i in g.get('inits', []):
@@ -212,7 +214,7 @@ def sweep(fx, R):
                     if isinstance(y, dict) and y.get('k') == 'Member' and y.get('field') and y.get('cls') == cls and y.get('name') in by_param:
                         srcs.add(y['name'])
                 # only derived values (a call / member access on the source), not plain copies of another parameter
-                derived = any(isinstance(y, dict) and y.get('k') in ('MCall', 'Call', 'Member') for y in walk(i['e']))
+                derived = any(isinstance(y, dict) and (y.get('k') in ('MCall', 'Call', 'Member') or (y.get('k') in ('Bin', 'Op') and y.get('op') in ('+', '-', '*', '/'))) for y in walk(i['e']))
                 if not srcs or not derived:
                     continue
                 D = i['field']
